@@ -533,6 +533,229 @@ def evaluate(sc, outs, np_):
                     break
     return fails, plans, nontrivial
 
+# ---------------------------------------------------------------------------------------
+# `_FillValue` arriving through every metadata path
+# ---------------------------------------------------------------------------------------
+FV_PATHS = ['put_att', 'put_att_typed', 'def_var_fill', 'copy_att-other-file-same-varid', 'copy_att-other-file-other-varid',
+            'copy_att-same-file-other-var', 'copy_att-self', 'rename_att-to-_FillValue']
+NC_EBADTYPE, NC_EINVAL, NC_ELATEFILL = -45, -36, -122
+
+
+def fv_rule(vt, at, n, is_old):
+    """the documented rule: same type as the variable, exactly one element, only for a variable defined in this define mode"""
+    if at != vt:
+        return NC_EBADTYPE
+    if n != 1:
+        return NC_EINVAL
+    if is_old:
+        return NC_ELATEFILL
+    return 0
+
+
+class FvScen:
+    def __init__(self, nprocs):
+        self.nprocs = nprocs
+        self.ops, self.exp = [], []
+        self.kinds = set()
+        self.fvreqs = []          # (driver line, op line index)
+
+    def op(self, s, kind=None, payload=None):
+        self.ops.append(s)
+        if kind:
+            self.exp.append((len(self.ops) - 1, kind, payload))
+
+    def text(self):
+        return '\n'.join(self.ops) + '\n'
+
+
+def gen_fv_scenario(rng, nprocs):
+    sc = FvScen(nprocs)
+    fmt = rng.choice([5, 5, 1, 2])
+    types = [4, 3, 6, 5, 1, 10, 7, 9] if fmt == 5 else [4, 3, 6, 5, 1]
+    vars_ = []                      # dict(t, rec, fv (custom value or None), phase)
+    known = {}
+    numrecs = 0
+    valctr = [rng.range(1, 20)]
+    attctr = [0]
+
+    def newval():
+        valctr[0] += 1
+        return valctr[0] % 100 + 1
+
+    def fillv(v):
+        x = vars_[v]['fv'] if vars_[v]['fv'] is not None else DEFAULT_FILL[vars_[v]['t']]
+        return float(x) if vars_[v]['t'] in (5, 6) else x
+
+    def reads(ph):
+        for v in range(len(vars_)):
+            sc.op('inqfill %d' % v, 'inqfill', (v, vars_[v]['t'], fillv(v)))
+            sc.op('read %d' % v, 'read', (v, vars_[v]['t'], dict(known.get(v, {})), fillv(v), ph))
+
+    sc.op('create %d' % fmt, 'code', 0)
+    sc.op('setfill 1', 'setfill', 0)
+    sc.op('dim 4', 'code', 0)
+    sc.op('dim 0', 'code', 0)
+    for phase in range(2):
+        is_redef = phase == 1
+        if is_redef:
+            sc.op('redef', 'code', 0)
+        first_new = len(vars_)
+        for _ in range(rng.range(2, 3) if not is_redef else rng.range(1, 2)):
+            ty = rng.choice(types)
+            rec = rng.chance(1, 3)
+            vars_.append(dict(t=ty, rec=rec, fv=None, phase=phase))
+            sc.op('var %d %s' % (ty, '2 1 0' if rec else '1 0'), 'code', 0)
+        # template: variable i has (mostly) the type of main variable i, so that same-varid copies are type-correct
+        ttypes = [(vars_[i]['t'] if i < len(vars_) and rng.chance(2, 3) else rng.choice(types)) for i in range(len(vars_) + 1)]
+        tvals = [newval() for _ in ttypes]
+        sc.op('tmakev ' + ' '.join('%d:%d' % (a, b) for a, b in zip(ttypes, tvals)), 'code', 0)
+        sc.op('topen 0', 'code', 0)
+        for _ in range(rng.range(4, 8)):
+            tv = rng.below(len(vars_))
+            vt = vars_[tv]['t']
+            is_old = vars_[tv]['phase'] < phase
+            path = rng.below(len(FV_PATHS))
+            hasatt = vars_[tv]['fv'] is not None
+            at = vt if rng.chance(2, 3) else rng.choice([x for x in types if x != vt])
+            n = rng.choice([1, 1, 1, 2])
+            val = newval()
+            line = None
+            if path == 0:
+                line = 'fvput %d %d %d %d 0' % (tv, at, n, val)
+            elif path == 1:
+                line = 'fvput %d %d %d %d 1' % (tv, at, n, val)
+            elif path == 2:
+                at, n = vt, 1
+                line = 'varfill %d 0 1 %d' % (tv, val)
+            elif path == 3:
+                if tv >= len(ttypes):
+                    continue
+                at, n, val = ttypes[tv], 1, tvals[tv]
+                line = 'copyatt 0 %d _FillValue %d' % (tv, tv)
+            elif path == 4:
+                j = rng.choice([i for i in range(len(ttypes)) if i != tv])
+                at, n, val = ttypes[j], 1, tvals[j]
+                line = 'copyatt 0 %d _FillValue %d' % (j, tv)
+            elif path == 5:
+                srcs = [i for i in range(len(vars_)) if i != tv and vars_[i]['fv'] is not None]
+                if not srcs:
+                    continue
+                sv = rng.choice(srcs)
+                at, n, val = vars_[sv]['t'], 1, vars_[sv]['fv']
+                line = 'copyatt 2 %d _FillValue %d' % (sv, tv)
+            elif path == 6:
+                if not hasatt:
+                    continue
+                line = 'copyatt 2 %d _FillValue %d' % (tv, tv)
+            elif path == 7:
+                if hasatt:
+                    continue
+                nm = 'x%d' % attctr[0]; attctr[0] += 1
+                sc.op('attany %d %s %d %d %d' % (tv, nm, at, n, val), 'code', 0)
+                line = 'renatt %d %s _FillValue' % (tv, nm)
+            want = 0 if path == 6 else fv_rule(vt, at, n, is_old)
+            sc.op(line, 'fvcode', (want, FV_PATHS[path], 'old' if is_old else ('new-in-redef' if is_redef else 'create')))
+            sc.fvreqs.append(('FV %d %d %d %d %d' % (path, vt, at, n, 1 if is_old else 0), len(sc.ops) - 1))
+            sc.kinds.add('fv:%s:%s:%s' % (FV_PATHS[path], 'old' if is_old else ('new-in-redef' if is_redef else 'create'),
+                                          {0: 'accepted', NC_EBADTYPE: 'EBADTYPE', NC_EINVAL: 'EINVAL', NC_ELATEFILL: 'ELATEFILL'}[want]))
+            if want == 0 and path != 6:
+                vars_[tv]['fv'] = val
+        # on a NEW variable the attribute may also leave again (rename away / delete): back to the default fill value
+        for v in range(first_new, len(vars_)):
+            if vars_[v]['fv'] is not None and rng.chance(1, 5):
+                if rng.chance(1, 2):
+                    sc.op('renatt %d _FillValue was_fv' % v, 'code', 0)
+                else:
+                    sc.op('delatt %d _FillValue' % v, 'code', 0)
+                vars_[v]['fv'] = None
+                sc.kinds.add('fv:attribute-removed-from-new-variable')
+        sc.op('tclose', 'code', 0)
+        sc.op('enddef', 'code', 0)
+        for v in range(first_new, len(vars_)):
+            kn = known.setdefault(v, {})
+            if vars_[v]['rec']:
+                for i in range(numrecs * 4):
+                    kn[i] = fillv(v)
+            else:
+                for i in range(4):
+                    kn[i] = fillv(v)
+        reads('after-enddef-%d' % phase)
+        # partial writes and explicit record fills
+        for v in range(first_new, len(vars_)):
+            seed = rng.below(100000)
+            if vars_[v]['rec']:
+                rec = numrecs if rng.chance(1, 2) else 0
+                sc.op('fillrec %d %d' % (v, rec), 'code', 0)
+                kn = known.setdefault(v, {})
+                for i in range(4):
+                    kn[rec * 4 + i] = fillv(v)
+                numrecs = max(numrecs, rec + 1)
+                sc.op('cput %d %d %d 0 1 2' % (v, seed, rec), 'code', 0)
+                for i in range(2):
+                    x = H.value_of(vars_[v]['t'], v, rec * 4 + i, seed)
+                    kn[rec * 4 + i] = float(x) if vars_[v]['t'] in (5, 6) else x
+            else:
+                s0 = rng.range(0, 2)
+                sc.op('cput %d %d %d 2' % (v, seed, s0), 'code', 0)
+                kn = known.setdefault(v, {})
+                for i in range(s0, s0 + 2):
+                    x = H.value_of(vars_[v]['t'], v, i, seed)
+                    kn[i] = float(x) if vars_[v]['t'] in (5, 6) else x
+        reads('after-writes-%d' % phase)
+    sc.op('close', 'code', 0)
+    sc.op('open 0', 'code', 0)
+    for v in range(len(vars_)):
+        sc.op('read %d' % v, 'read', (v, vars_[v]['t'], dict(known.get(v, {})), fillv(v), 'after-reopen'))
+    sc.op('close', 'code', 0)
+    return sc
+
+
+def evaluate_fv(sc, outs, np_):
+    fails = []
+    rep = dict(nprocs=np_, script=sc.ops)
+    res = outs[0]
+    for li, kind, payload in sc.exp:
+        ans = res.get(li + 1)
+        if ans is None:
+            fails.append(('api-no-answer', 'no answer for op %d (%s)' % (li + 1, sc.ops[li]), rep)); break
+        t = ans.split()
+        if kind == 'code':
+            if t[-1] != str(payload):
+                fails.append(('api-error:%s' % sc.ops[li].split()[0], 'valid call `%s` returned %s' % (sc.ops[li], t[-1]), rep)); break
+        elif kind == 'setfill':
+            if t[1] != '0':
+                fails.append(('api-error:setfill', '`%s` returned %s' % (sc.ops[li], t[1]), rep)); break
+        elif kind == 'fvcode':
+            want, path, sit = payload
+            if int(t[-1]) != want:
+                fails.append(('fillvalue-rule:%s:%s' % (path, sit),
+                              '_FillValue delivered through %s onto a variable (%s): `%s` returned %s, the documented rule gives %d'
+                              % (path, sit, sc.ops[li], t[-1], want), rep))
+                break      # later expectations depend on this outcome
+        elif kind == 'inqfill':
+            v, ty, fv = payload
+            if t[1] != '0' or t[2] != '0' or H.decode(ty, t[3]) != fv:
+                fails.append(('inq_var_fill-current-value', 'variable %d: ncmpi_inq_var_fill gives %s, expected fill mode on and value %r' % (v, ' '.join(t[1:]), fv), rep))
+        elif kind == 'read':
+            v, ty, kn, fv, ph = payload
+            for r in range(np_):
+                ar = outs[r].get(li + 1)
+                if ar is None or ':' not in ar or ar.split()[2] != '0':
+                    fails.append(('api-error:read', 'rank %d: reading variable %d %s failed: %s' % (r, v, ph, (ar or '')[:60]), rep)); break
+                vals = ar.split(':', 1)[1].split()
+                bad = False
+                for idx, val in kn.items():
+                    got = H.decode(ty, vals[idx]) if idx < len(vals) else None
+                    if got != val:
+                        isf = (val == fv)
+                        fails.append((('unwritten-not-current-fill-%s' % ph) if isf else ('written-value-changed-%s' % ph),
+                                      'rank %d: element %d of variable %d (type %d): expected %s %r, reads %r %s'
+                                      % (r, idx, v, ty, 'the current fill value' if isf else 'written value', val, got, ph), rep))
+                        bad = True; break
+                if bad:
+                    break
+    return fails
+
 
 def run_check(tier, seed):
     V = Verdict(PROP, tier, seed)
@@ -733,6 +956,42 @@ def run_check(tier, seed):
         log('[S4] api stream: %d scenarios on ranks %s, %d per-rank plans compared, %d property failures, %d plan differences (%.1fs)'
             % (nscen, ranks_api, len(plan_reqs), len(prop_fail), len(plan_diffs), t2.s()))
 
+        # ---- `_FillValue` through every metadata path
+        t3 = Timer()
+        nfv = 0
+        fv_reqs, fv_real = [], []
+        for np_ in ([1, 2, 3] if tier == 'quick' else [1, 2, 3, 4]):
+            scen = [gen_fv_scenario(rng, np_) for _ in range(12 if tier == 'quick' else 80)]
+            nfv += len(scen)
+            results = run_scenarios(aexe, wd, np_, scen, True)
+            if results is None:
+                results = run_scenarios(aexe, wd, np_, scen, False)
+            for sc, outs in zip(scen, results):
+                if outs == 'skipped':
+                    continue
+                nevals += len(sc.ops)
+                for kd in sc.kinds:
+                    bump('api:' + kd)
+                if outs is None:
+                    prop_fail.append(('api-crash-or-hang', 'harness crashed or hung on a _FillValue scenario (%d ranks)' % np_,
+                                      dict(nprocs=np_, script=sc.ops)))
+                    continue
+                prop_fail += evaluate_fv(sc, outs, np_)
+                distinct.add(sc.text())
+                for line, li in sc.fvreqs:
+                    a = outs[0].get(li + 1)
+                    if a is not None:
+                        fv_reqs.append(line); fv_real.append((a.split()[-1], sc.ops[li]))
+        fv_diffs = []
+        if fv_reqs:
+            for line, (realc, opl), m in zip(fv_reqs, fv_real, run_driver(fv_reqs)):
+                nevals += 1
+                if m.strip() != realc:
+                    fv_diffs.append(dict(request=line, op=opl, impl=realc, model=m.strip()))
+        log('[S4] _FillValue paths: %d scenarios, %d deliveries compared with the model rule, %d differences (%.1fs)'
+            % (nfv, len(fv_reqs), len(fv_diffs), t3.s()))
+        V.cov['fillvalue_deliveries'] = len(fv_reqs)
+
         V.cov['evaluations'] = nevals
         V.cov['distinct_nontrivial'] = len(distinct)
         V.cov['traces_validated_against_impl'] = nevals - len(unit_diffs) - len(plan_diffs)
@@ -759,6 +1018,8 @@ def run_check(tier, seed):
         if new_fail == 0:
             if unit_diffs:
                 V.broken_tie('correspondence unit: real fillerup_aggregate / fill_var_rec and the model differ', unit_diffs[:8])
+            if fv_diffs:
+                V.broken_tie('correspondence _FillValue rule: return code of the real library differs from the model fvAccept', fv_diffs[:8])
             if plan_diffs:
                 V.broken_tie('correspondence api: the file view built by the real ncmpi_enddef differs from the model plan', plan_diffs[:5])
             if layout_bad:
